@@ -392,6 +392,41 @@ def extra_tables(w, info):
     info["kDefaultChain"] = kch
     datetime_tables(w, info)
     numbers_tables(w, info)
+    panic_inventory(w, info)
+
+
+PANIC_FILES = [
+    "crates/toml_edit/src/parser/trivia.rs", "crates/toml_edit/src/parser/numbers.rs", "crates/toml_edit/src/parser/datetime.rs",
+    "crates/toml_edit/src/parser/strings.rs", "crates/toml_edit/src/parser/key.rs", "crates/toml_edit/src/parser/state.rs",
+    "crates/toml_edit/src/parser/mod.rs", "crates/toml_edit/src/parser/document.rs", "crates/toml_edit/src/parser/value.rs",
+    "crates/toml_edit/src/parser/array.rs", "crates/toml_edit/src/parser/inline_table.rs", "crates/toml_edit/src/parser/table.rs",
+    "crates/toml_edit/src/parser/error.rs", "crates/toml_edit/src/raw_string.rs", "crates/toml_edit/src/error.rs",
+    "crates/toml_datetime/src/datetime.rs", "crates/toml_edit/src/de/mod.rs",
+]
+PANIC_RE = re.compile(r"\.expect\(|\.unwrap\(\)|unreachable!|panic!|(?<![a-z_])assert!|(?<![a-z_])assert_eq!|unimplemented!|todo!")
+
+
+def panic_inventory(w, info):
+    """every potential panic site of the anchored files: (file, enclosing fn, construct), in source order"""
+    sites = []
+    for rel in PANIC_FILES:
+        src = strip_comments(read(rel))
+        k = src.find("#[cfg(test)]")
+        src = src[:k] if k >= 0 else src
+        fn = "?"
+        for line in src.split("\n"):
+            m = re.search(r"\bfn\s+([a-zA-Z0-9_]+)", line)
+            if m:
+                fn = m.group(1)
+            for m in PANIC_RE.finditer(line):
+                kind = m.group(0).strip(".(")
+                sites.append(f"{rel.split('/src/')[0].split('/')[-1]}/{rel.split('/src/')[1]}:{fn}:{kind}")
+    w("/-- potential panic sites (expect / unwrap / unreachable! / panic! / assert!) of the anchored files, in source order -/")
+    w("def panicSites : List String := [")
+    for st in sites:
+        w(f'  "{st}",')
+    w("]")
+    info["panicSites"] = sites
 
 
 def numbers_tables(w, info):
